@@ -17,6 +17,10 @@ type ByWithoutPlanner struct {
 }
 
 func (b *ByWithoutPlanner) Process(ctx *shared.PlannerContext) (sql.ISelect, error) {
+	if b.UseTimeSeriesTable && b.LabelsCache != nil {
+		// the labels WITH of a previous execution of this plan must not be read again
+		*b.LabelsCache = nil
+	}
 	main, err := b.Main.Process(ctx)
 	if err != nil {
 		return nil, err
